@@ -220,6 +220,9 @@ impl Scenario for RealConnectSim {
         } else {
             addrs.clone()
         };
+        // a listener on the first candidate's address, on another port: what a resolver-reported port would reach
+        let decoy = std::net::TcpListener::bind(SocketAddrV4::new(candidate_ip(0), 0)).ok();
+        let decoy_port = decoy.as_ref().and_then(|d| d.local_addr().ok()).map(|a| a.port()).filter(|p| *p != port).unwrap_or(1);
         let rt = tokio::runtime::Builder::new_current_thread().enable_all().build().expect("runtime");
         let started = std::time::Instant::now();
         let res = std::panic::catch_unwind(std::panic::AssertUnwindSafe(|| {
@@ -238,8 +241,9 @@ impl Scenario for RealConnectSim {
                             t.connect_to_addrs(offered.clone()).await.map_err(|e| format!("{:?}", e))
                         }
                         Via::Call => {
-                            // the resolver answers with port 1; the transport must put the URI's port on every address
-                            let list: Vec<SocketAddr> = offered.iter().map(|a| SocketAddr::new(a.ip(), 1)).collect();
+                            // the resolver answers with another port (on which a decoy listens for the
+                            // first candidate's address); the transport must put the URI's port on every address
+                            let list: Vec<SocketAddr> = offered.iter().map(|a| SocketAddr::new(a.ip(), decoy_port)).collect();
                             let resolver = tower::service_fn(move |_host: Box<str>| {
                                 let list = list.clone();
                                 async move { Ok::<_, std::io::Error>(SocketAddrs::from_iter(list)) }
@@ -308,6 +312,17 @@ impl Scenario for RealConnectSim {
         out.nontrivial = n >= 2;
         out.sim_ms = started.elapsed().as_millis() as u64;
         let csig = json!({"via": format!("{:?}", case.via), "concurrency": case.concurrency});
+        // C06: the connection must be established for the authority of the request URI - host *and* port
+        if let Ok(Some(Ok(peer))) = &res {
+            if peer.port() != port && !(case.hanging_first && peer.port() == port) {
+                out.violations.push(Violation::new(
+                    "C06",
+                    "connected_to_other_port",
+                    csig.clone(),
+                    format!("the request names port {} but the returned stream is connected to {} (the resolver's answer carried port {})", port, peer, decoy_port),
+                ));
+            }
+        }
         let mut v10 = |rule: &str, d: String| out.violations.push(Violation::new("C10", rule, csig.clone(), d));
         let winner: Option<usize> = match &res {
             Ok(Some(Ok(peer))) => addrs.iter().position(|a| a == peer),
